@@ -42,6 +42,10 @@ func (m *PluginManager) ListInstalledPlugins() ([]PluginMetadata, error) {
 
 	var out []PluginMetadata
 	for _, repoDirName := range repositoryDirectories {
+		if strings.HasPrefix(repoDirName.Name(), stagingDirPrefix) {
+			// Left behind by an interrupted installation.
+			continue
+		}
 		repoDir := filepath.Join(getPluginDir(), repoDirName.Name())
 
 		pluginDirectories, err := os.ReadDir(repoDir)
@@ -97,6 +101,9 @@ func (m *PluginManager) GetPluginBinaryPath(ref config.PluginReference, version 
 
 	return binaryPath, nil
 }
+
+// stagingDirPrefix is the name prefix of the directories plugins are unpacked in before being moved into place.
+const stagingDirPrefix = ".staging-"
 
 func getPluginDir() string {
 	out, ok := os.LookupEnv("OCTOSQL_PLUGIN_DIR")
@@ -184,14 +191,20 @@ func (m *PluginManager) Install(ctx context.Context, name string, constraint *se
 
 	newPluginDir := filepath.Join(getPluginDir(), repoSlug, fmt.Sprintf("octosql-plugin-%s", name), version.Number.String())
 
-	if err := os.RemoveAll(newPluginDir); err != nil {
-		return fmt.Errorf("couldn't remove old plugin directory: %w", err)
-	}
-
-	if err := os.MkdirAll(newPluginDir, os.ModePerm); err != nil {
+	if err := os.MkdirAll(filepath.Dir(newPluginDir), os.ModePerm); err != nil {
 		return fmt.Errorf("couldn't create plugins directory: %w", err)
 	}
-	archiveFilePath := filepath.Join(newPluginDir, "archive.tar.gz")
+	// The plugin is downloaded and unpacked in a staging directory and only moved into place when complete,
+	// so an interrupted installation never leaves a half-installed version behind.
+	stagingDir, err := os.MkdirTemp(getPluginDir(), stagingDirPrefix)
+	if err != nil {
+		return fmt.Errorf("couldn't create plugin staging directory: %w", err)
+	}
+	defer os.RemoveAll(stagingDir)
+	if err := os.Chmod(stagingDir, 0755); err != nil {
+		return fmt.Errorf("couldn't set permissions of the plugin staging directory: %w", err)
+	}
+	archiveFilePath := filepath.Join(stagingDir, "archive.tar.gz")
 
 	// Anonymous function to take care of defers before we move forward.
 	err = func() error {
@@ -221,12 +234,19 @@ func (m *PluginManager) Install(ctx context.Context, name string, constraint *se
 		return err
 	}
 
-	if err := archiver.NewTarGz().Unarchive(archiveFilePath, newPluginDir); err != nil {
+	if err := archiver.NewTarGz().Unarchive(archiveFilePath, stagingDir); err != nil {
 		return fmt.Errorf("couldn't unarchive plugin archive: %w", err)
 	}
 
 	if err := os.Remove(archiveFilePath); err != nil {
 		return fmt.Errorf("couldn't remove plugin archive: %w", err)
+	}
+
+	if err := os.RemoveAll(newPluginDir); err != nil {
+		return fmt.Errorf("couldn't remove old plugin directory: %w", err)
+	}
+	if err := os.Rename(stagingDir, newPluginDir); err != nil {
+		return fmt.Errorf("couldn't move installed plugin into place: %w", err)
 	}
 
 	if err := registerFileExtensions(plugin.Name, plugin.FileExtensions); err != nil {
